@@ -70,11 +70,11 @@ Fixpoint select (caps : list cap) (idx : list nat) : option (list cap) :=
                  end
   end.
 
-(** parse results: [PFuel] = the fuel ran out (never with the fuel used by [parse_full], see
-    ParseProofs); [PBad] = the table is ill-typed (a constructor applied to the wrong captures;
-    excluded for the regenerated table by [table_well_typed]) *)
-Inductive pres (A : Type) := PMatch (a : A) (rest : str) | PFail | PFuel | PBad.
-Arguments PMatch {A}. Arguments PFail {A}. Arguments PFuel {A}. Arguments PBad {A}.
+(** parse results: [PFuel] = the fuel ran out (never with the fuel used by [parse_full]);
+    [PBad] = the table is ill-typed (a constructor applied to the wrong captures; excluded for
+    the regenerated table by [table_well_typed]) *)
+Inductive pres (A R : Type) := PMatch (a : A) (rest : R) | PFail | PFuel | PBad.
+Arguments PMatch {A R}. Arguments PFail {A R}. Arguments PFuel {A R}. Arguments PBad {A R}.
 
 Fixpoint drop_prefix (p s : str) : option str :=
   match p, s with
@@ -83,78 +83,55 @@ Fixpoint drop_prefix (p s : str) : option str :=
   | _ :: _, [] => None
   end.
 
+(** The lexical primitives the precedence algorithm is run over.  [I] is the remaining input:
+    characters for the real grammar ([char_lexer]); tokens for the token-level statement of the
+    round-trip theorem (Arith/TokProofs.v).  The algorithm itself ([parse]) is one definition. *)
+Record lexer (I : Type) := {
+  lx_size : I -> nat;
+  lx_empty : I -> bool;                                  (* ![_] *)
+  lx_ws : I -> I;                                        (* _ *)
+  lx_tok : str -> I -> option I;                         (* "literal" *)
+  lx_not : cclass -> I -> bool;                          (* ![class]: true = the look-ahead succeeds *)
+  lx_lvalue : (I -> pres aexpr I) -> I -> pres (str * option aexpr) I;   (* lvalue(), given expression() *)
+  lx_number : I -> option (Z * I)                        (* literal_number() *)
+}.
+Arguments lx_size {I}. Arguments lx_empty {I}. Arguments lx_ws {I}. Arguments lx_tok {I}.
+Arguments lx_not {I}. Arguments lx_lvalue {I}. Arguments lx_number {I}.
+
 Section Interp.
-  Variable cfg : lexcfg.
+  Variable I : Type.
+  Variable lx : lexer I.
   Variable tbl : table.
 
-  Fixpoint skip_ws (s : str) : str :=
-    match s with
-    | c :: s' => if in_class (ws_class cfg) c then skip_ws s' else s
-    | [] => []
-  end.
-
-  (** rule [variable_name] *)
-  Definition variable_name (s : str) : option (str * str) :=
-    match s with
-    | c :: s' => if in_class (name_start cfg) c
-                 then let '(n, rest) := take_while (name_cont cfg) s' in Some (c :: n, rest)
-                 else None
-    | [] => None
-    end.
-
-  (** rule [lvalue] = name "[" expression "]" / name, given the parser of [expression] *)
-  Definition lvalue (expr : str -> pres aexpr) (s : str) : pres (str * option aexpr) :=
-    match variable_name s with
-    | None => PFail
-    | Some (x, rest) =>
-      match rest with
-      | c :: r1 =>
-        if N.eqb c 91 then                                   (* "[" *)
-          match expr r1 with
-          | PMatch ie (c2 :: r2) =>
-            if N.eqb c2 93 then PMatch (x, Some ie) r2       (* "]" *)
-            else PMatch (x, None) rest
-          | PMatch _ [] | PFail => PMatch (x, None) rest
-          | PFuel => PFuel
-          | PBad => PBad
-          end
-        else PMatch (x, None) rest
-      | [] => PMatch (x, None) rest
-      end
-    end.
-
   (** the elements of one rule, left to right; captures are accumulated in reverse *)
-  Fixpoint run_elems (rec : nat -> str -> pres aexpr) (els : list elem) (caps : list cap) (s : str)
-    : pres (list cap) :=
+  Fixpoint run_elems (rec : nat -> I -> pres aexpr I) (els : list elem) (caps : list cap) (s : I)
+    : pres (list cap) I :=
     match els with
     | [] => PMatch caps s
     | el :: els' =>
       match el with
-      | EWs => run_elems rec els' caps (skip_ws s)
-      | ETok t => match drop_prefix t s with
+      | EWs => run_elems rec els' caps (lx_ws lx s)
+      | ETok t => match lx_tok lx t s with
                   | Some s' => run_elems rec els' caps s'
                   | None => PFail
                   end
-      | ENot cls => match s with
-                    | c :: _ => if in_class cls c then PFail else run_elems rec els' caps s
-                    | [] => run_elems rec els' caps s
-                    end
+      | ENot cls => if lx_not lx cls s then run_elems rec els' caps s else PFail
       | EExpr => match rec O s with
                  | PMatch e s' => run_elems rec els' (VE e :: caps) s'
                  | PFail => PFail | PFuel => PFuel | PBad => PBad
                  end
-      | ELval => match lvalue (rec O) s with
+      | ELval => match lx_lvalue lx (rec O) s with
                  | PMatch (x, i) s' => run_elems rec els' (VT x i :: caps) s'
                  | PFail => PFail | PFuel => PFuel | PBad => PBad
                  end
-      | ENum => match literal_number cfg s with
+      | ENum => match lx_number lx s with
                 | Some (z, s') => run_elems rec els' (VZ z :: caps) s'
                 | None => PFail
                 end
       end
     end.
 
-  Definition finish (r : rule) (caps_rev : list cap) (rest : str) : pres aexpr :=
+  Definition finish (r : rule) (caps_rev : list cap) (rest : I) : pres aexpr I :=
     match select (rev caps_rev) (rargs r) with
     | Some args => match build (rctor r) args with
                    | Some e => PMatch e rest
@@ -164,7 +141,7 @@ Section Interp.
     end.
 
   (** one prefix rule or atom at [s]; [prec] is the level the rule was written in *)
-  Definition run_pre (rec : nat -> str -> pres aexpr) (prec : nat) (r : rule) (s : str) : pres aexpr :=
+  Definition run_pre (rec : nat -> I -> pres aexpr I) (prec : nat) (r : rule) (s : I) : pres aexpr I :=
     match rk r with
     | KPrefix ra =>
       match run_elems rec (rels r) [] s with
@@ -184,8 +161,8 @@ Section Interp.
     end.
 
   (** one infix or postfix rule applied to the accumulated left operand *)
-  Definition run_post (rec : nat -> str -> pres aexpr) (prec : nat) (r : rule) (left : aexpr) (s : str)
-    : pres aexpr :=
+  Definition run_post (rec : nat -> I -> pres aexpr I) (prec : nat) (r : rule) (left : aexpr) (s : I)
+    : pres aexpr I :=
     match rk r with
     | KInfix la ra =>
       match la, ra with
@@ -211,8 +188,8 @@ Section Interp.
   Definition is_pre (r : rule) : bool := match rk r with KPrefix _ | KAtom => true | _ => false end.
 
   (** ordered choice over the prefix rules/atoms of all levels *)
-  Fixpoint first_pre_level (rec : nat -> str -> pres aexpr) (prec : nat) (rs : list rule) (s : str)
-    : pres aexpr :=
+  Fixpoint first_pre_level (rec : nat -> I -> pres aexpr I) (prec : nat) (rs : list rule) (s : I)
+    : pres aexpr I :=
     match rs with
     | [] => PFail
     | r :: rs' =>
@@ -223,7 +200,7 @@ Section Interp.
         end
       else first_pre_level rec prec rs' s
     end.
-  Fixpoint first_pre (rec : nat -> str -> pres aexpr) (prec : nat) (lv : table) (s : str) : pres aexpr :=
+  Fixpoint first_pre (rec : nat -> I -> pres aexpr I) (prec : nat) (lv : table) (s : I) : pres aexpr I :=
     match lv with
     | [] => PFail
     | rs :: lv' =>
@@ -234,8 +211,8 @@ Section Interp.
     end.
 
   (** [level_code]: the first infix/postfix rule of a level [>= minp] that matches *)
-  Fixpoint first_post_level (rec : nat -> str -> pres aexpr) (prec : nat) (rs : list rule)
-           (left : aexpr) (s : str) : pres aexpr :=
+  Fixpoint first_post_level (rec : nat -> I -> pres aexpr I) (prec : nat) (rs : list rule)
+           (left : aexpr) (s : I) : pres aexpr I :=
     match rs with
     | [] => PFail
     | r :: rs' =>
@@ -245,8 +222,8 @@ Section Interp.
            | x => x
            end
     end.
-  Fixpoint first_post (rec : nat -> str -> pres aexpr) (minp prec : nat) (lv : table)
-           (left : aexpr) (s : str) : pres aexpr :=
+  Fixpoint first_post (rec : nat -> I -> pres aexpr I) (minp prec : nat) (lv : table)
+           (left : aexpr) (s : I) : pres aexpr I :=
     match lv with
     | [] => PFail
     | rs :: lv' =>
@@ -259,8 +236,8 @@ Section Interp.
     end.
 
   (** the [loop] of [__infix_parse] *)
-  Fixpoint infix_loop (rec : nat -> str -> pres aexpr) (n : nat) (minp : nat) (left : aexpr) (s : str)
-    : pres aexpr :=
+  Fixpoint infix_loop (rec : nat -> I -> pres aexpr I) (n : nat) (minp : nat) (left : aexpr) (s : I)
+    : pres aexpr I :=
     match n with
     | O => PFuel
     | S n' =>
@@ -273,32 +250,79 @@ Section Interp.
     end.
 
   (** [__infix_parse]; every recursive call happens after at least one consumed character, so
-      [fuel > length s] never runs out (ParseProofs.parse_fuel_enough) *)
-  Fixpoint parse (fuel : nat) (minp : nat) (s : str) {struct fuel} : pres aexpr :=
+      [fuel > size s] never runs out *)
+  Fixpoint parse (fuel : nat) (minp : nat) (s : I) {struct fuel} : pres aexpr I :=
     match fuel with
     | O => PFuel
     | S f =>
       match first_pre (parse f) O tbl s with
-      | PMatch e rest => infix_loop (parse f) (S (length rest)) minp e rest
+      | PMatch e rest => infix_loop (parse f) (S (lx_size lx rest)) minp e rest
       | x => x
       end
     end.
 
-  (** rule [full_expression] plus the end-of-input check of the generated entry point *)
-  Definition parse_full (s : str) : pres aexpr :=
-    match s with
-    | [] => PMatch (ELit 0) []
-    | _ =>
-      let s1 := skip_ws s in
-      match parse (S (length s1)) O s1 with
-      | PMatch e rest => match skip_ws rest with
-                         | [] => PMatch e []
-                         | _ => PFail
-                         end
+  (** rule [full_expression] = ![_] {0} / _ expression _, plus the end-of-input check of the
+      generated entry point *)
+  Definition parse_full (s : I) : pres aexpr I :=
+    if lx_empty lx s then PMatch (ELit 0) s
+    else
+      let s1 := lx_ws lx s in
+      match parse (S (lx_size lx s1)) O s1 with
+      | PMatch e rest => let r := lx_ws lx rest in if lx_empty lx r then PMatch e r else PFail
       | x => x
-      end
-    end.
+      end.
 
-  Definition parse_opt (s : str) : option aexpr :=
+  Definition parse_opt (s : I) : option aexpr :=
     match parse_full s with PMatch e _ => Some e | _ => None end.
 End Interp.
+
+(** ** the character-level primitives of the real grammar *)
+Section CharLexer.
+  Variable cfg : lexcfg.
+
+  Fixpoint skip_ws (s : str) : str :=
+    match s with
+    | c :: s' => if in_class (ws_class cfg) c then skip_ws s' else s
+    | [] => []
+  end.
+
+  (** rule [variable_name] *)
+  Definition variable_name (s : str) : option (str * str) :=
+    match s with
+    | c :: s' => if in_class (name_start cfg) c
+                 then let '(n, rest) := take_while (name_cont cfg) s' in Some (c :: n, rest)
+                 else None
+    | [] => None
+    end.
+
+  (** rule [lvalue] = name "[" expression "]" / name, given the parser of [expression] *)
+  Definition lvalue (expr : str -> pres aexpr str) (s : str) : pres (str * option aexpr) str :=
+    match variable_name s with
+    | None => PFail
+    | Some (x, rest) =>
+      match rest with
+      | c :: r1 =>
+        if N.eqb c 91 then                                   (* "[" *)
+          match expr r1 with
+          | PMatch ie (c2 :: r2) =>
+            if N.eqb c2 93 then PMatch (x, Some ie) r2       (* "]" *)
+            else PMatch (x, None) rest
+          | PMatch _ [] | PFail => PMatch (x, None) rest
+          | PFuel => PFuel
+          | PBad => PBad
+          end
+        else PMatch (x, None) rest
+      | [] => PMatch (x, None) rest
+      end
+    end.
+
+  Definition char_lexer : lexer str := {|
+    lx_size := @length char;
+    lx_empty := fun s => match s with [] => true | _ => false end;
+    lx_ws := skip_ws;
+    lx_tok := drop_prefix;
+    lx_not := fun cls s => match s with c :: _ => negb (in_class cls c) | [] => true end;
+    lx_lvalue := lvalue;
+    lx_number := literal_number cfg
+  |}.
+End CharLexer.
